@@ -654,6 +654,12 @@ impl ExchangeCase {
 fn judge_exchange(ctx: &mut Ctx, ec: &ExchangeCase, timeout: Duration) {
     ctx.eval();
     ctx.count(&format!("exchange/{}", ec.bucket));
+    if ec.bucket.contains("stderr/") {
+        ctx.count("exchanges_with_stderr_volume");
+        if !ec.bucket.contains("stderr/pad<60KiB") {
+            ctx.count("exchanges_with_stderr_volume_above_pipe_capacity");
+        }
+    }
     let out = call_in_subprocess(&cverif_path(ctx), &ec.spec, timeout, &ctx.out_dir.clone());
     match out {
         CallOutcome::HarnessError(e) => ctx.harness_error(&e),
